@@ -48,6 +48,12 @@ CONSTANTS
                     \*          an upstream's header: appended to what the compressing handler put there).  It must
                     \*          arrive, and - the handler instance being shared by all responses - it must not leak
                     \*          into any other response
+                    \*   buf  : "fresh" | "reused": the inner handler writes every chunk from ONE buffer which it overwrites as
+                    \*          soon as Write has returned (io.Copy, fmt.Fprintf do that; io.Writer forbids the callee to
+                    \*          keep the slice).  A written chunk is the VALUE at the time of the call
+                    \*   via  : "default" | "insecure" | "target": which transport of the proxy serves the route (route
+                    \*          options tlsskipverify=true / proto=https host=<name> select another one than the default);
+                    \*          it has no say in what is delivered
                     \*   late : the inner handler sets its response headers only after its informational
                     \*          WriteHeader calls, just before the first final op (how Early Hints are used);
                     \*          the response is the same, so the specification does not look at it
@@ -57,6 +63,9 @@ CONSTANTS
                     \*         - the compress decision is then due at the Flush, BEFORE the header is committed;
                     \* FALSE = the writer offers no Flush and the call is a no-op.  Both are permitted.
     WithFlush,      \* whether handler scripts contain Flush calls at all
+    WithHijack,     \* whether handler scripts contain an attempt to take the connection over (http.Hijacker) that
+                    \* FAILS because the writer below cannot be hijacked; the handler then answers normally.  A failed
+                    \* operation leaves nothing behind: the response is judged as if it had not been tried.
     WithAbort,      \* whether handler scripts may end in an abort: the inner handler gives up with a panic
                     \* (http.ErrAbortHandler - how the reverse proxy reacts when the upstream or the client goes
                     \* away while the body is copied).  Nothing is required of the aborted response itself, but
@@ -75,7 +84,7 @@ VARIABLES
 vars == <<hs, pool, made, wbuf, wtarget, hist>>
 
 Writers == 1..MaxWriters
-NoReq == [ae |-> "", ct |-> "", enc |-> "", cl |-> FALSE, acc |-> "", method |-> "", late |-> FALSE, vary |-> ""]
+NoReq == [ae |-> "", ct |-> "", enc |-> "", cl |-> FALSE, acc |-> "", method |-> "", late |-> FALSE, vary |-> "", buf |-> "", via |-> ""]
 Idle == [pc |-> "idle", req |-> NoReq, mode |-> "undecided", writer |-> 0, status |-> 0,
          ce |-> "", cl |-> FALSE, inner |-> <<>>, body |-> <<>>, ops |-> <<>>]
 
@@ -201,6 +210,13 @@ Put(h) ==
     /\ pool' = IF hs[h].mode = "gzip" THEN pool \cup {hs[h].writer} ELSE pool
     /\ hs' = [hs EXCEPT ![h].pc = IF PutBeforeFlush THEN "put" ELSE "done"]
 
+\* the inner handler tries to hijack the connection and is refused
+HijackFails(h) ==
+    /\ hs[h].pc = "serving" /\ Len(hs[h].ops) < MaxOps
+    /\ hs' = [hs EXCEPT ![h].ops = Append(@, Ev(h, "hj", 0, ""))]
+    /\ hist' = Append(hist, Ev(h, "hj", 0, ""))
+    /\ UNCHANGED <<pool, made, wbuf, wtarget>>
+
 \* the inner handler gives up: the response is cut; a writer it held goes back to the pool (whatever it
 \* buffered is dropped by the Reset of the next user) or is discarded
 Abort(h) ==
@@ -226,6 +242,7 @@ Next == \E h \in Handlers :
           \/ \E k \in Chunks : Write(h, k)
           \/ (WithFlush /\ FlushOp(h))
           \/ (WithAbort /\ Abort(h))
+          \/ (WithHijack /\ HijackFails(h))
           \/ FinishFlush(h)
           \/ FinishPut(h)
 Spec == Init /\ [][Next]_vars
